@@ -180,6 +180,10 @@ func Ops() []Op {
 			Run: func(sb *fsx.Sandbox, i, o string) error { return api.RemoveAttachmentsFile(i, o, nil, nil) }},
 		{Name: "api.MultiFillFormFile", Class: "outdir", In: "samples/form/demo/english.pdf", Multi: true, Extra: map[string]string{"multi.json": "samples/form/multifill/json/english.json"},
 			Run: func(sb *fsx.Sandbox, i, o string) error { return api.MultiFillFormFile(i, sb.P("in/multi.json"), o, i, false, nil) }},
+		{Name: "api.MultiFillFormFile+merge", Class: "outdir", In: "samples/form/demo/english.pdf", Multi: true, Extra: map[string]string{"multi.json": "samples/form/multifill/json/english.json"},
+			Run: func(sb *fsx.Sandbox, i, o string) error { return api.MultiFillFormFile(i, sb.P("in/multi.json"), o, "batch.pdf", true, nil) }},
+		{Name: "api.MultiFillFormFile+csv", Class: "outdir", In: "samples/form/demo/english.pdf", Multi: true, Extra: map[string]string{"multi.csv": "samples/form/multifill/csv/english.csv"},
+			Run: func(sb *fsx.Sandbox, i, o string) error { return api.MultiFillFormFile(i, sb.P("in/multi.csv"), o, "batch.pdf", false, nil) }},
 		{Name: "api.PosterFile", Class: "outdir", In: "testdata/testRot.pdf", Multi: true,
 			Run: func(sb *fsx.Sandbox, i, o string) error {
 				c, err := pdfcpu.ParseCutConfigForPoster("f:A5", types.POINTS)
